@@ -50,7 +50,7 @@ REAL_VS_STUB = {
     'real': ['optree engine serialization + registry re-binding', 'CPython pickle / copy', 'a real second interpreter process for restart histories'],
     'stub_or_simulator_owned': ['registration log and its drift', 'custom flatten/unflatten callables', 'GC timing', 'which history happens between dump and load'],
 }
-EXPECTED_PROBES = ('rejected-load-before', 'early-load-before-drift', 'history:drift-reregister-other', 'derived:child', 'derived:compose', 'derived:ctor', 'history:same-process', 'history:gc-between', 'history:drift-unregister', 'history:drift-reregister-same',
+EXPECTED_PROBES = ('derived:wide', 'rejected-load-before', 'early-load-before-drift', 'history:drift-reregister-other', 'derived:child', 'derived:compose', 'derived:ctor', 'history:same-process', 'history:gc-between', 'history:drift-unregister', 'history:drift-reregister-same',
                    'history:drift-global-only', 'history:restart-same', 'history:restart-missing', 'history:restart-other-ns',
                    'load:refused', 'load:ok', 'mentions-custom', 'mode:insertion', 'proto:2', 'proto:3', 'proto:4', 'proto:5')
 
@@ -143,7 +143,7 @@ def run_job(job, io):
         # sometimes pickle a treespec DERIVED from the flattened one (sub-spec, composition, constructor): those have no
         # "fresh flatten" to compare with, only the original
         derived = None
-        dv = tape.draw(8, 'derive')
+        dv = tape.draw(10, 'derive')
         if dv == 1 and spec.num_children:
             ci = tape.draw(spec.num_children, 'derive-child')
             spec, derived = spec.child(ci), 'child'
@@ -155,6 +155,22 @@ def run_job(job, io):
             spec, derived = optree.treespec_tuple([spec, optree.treespec_leaf(none_is_leaf=nil)], none_is_leaf=nil, namespace=ns), 'ctor'
         elif dv == 5:
             spec, derived = (spec.one_level() or spec), 'one_level'
+        elif dv in (8, 9):
+            # WIDE: more sibling sub-trees pending at one node than MAX_RECURSION_DEPTH allows levels (a size threshold that
+            # belongs to depth must not leak into width); one wide node, or the siblings spread over two levels
+            n = (999, 1000, 1001, 1002, 1500, 2600)[tape.draw(6, 'wide-n')]
+            lf = optree.treespec_leaf(none_is_leaf=nil)
+            kwc = {'none_is_leaf': nil, 'namespace': ns}
+            shape = tape.draw(4, 'wide-shape')
+            if shape == 0:
+                spec = optree.treespec_list([spec] + [lf] * n, **kwc)
+            elif shape == 1:
+                spec = optree.treespec_tuple([lf] * n + [spec], **kwc)
+            elif shape == 2:
+                spec = optree.treespec_dict({i: lf for i in range(n)}, **kwc)
+            else:
+                spec = optree.treespec_ordereddict([('k%d' % i, lf) for i in range(n // 2)] + [('last', optree.treespec_list([lf] * (n - n // 2) + [spec], **kwc))], **kwc)
+            derived = 'wide'
         if derived:
             probes['derived:' + derived] += 1
             leaves = [U.Leaf(70000 + j) for j in range(spec.num_leaves)]
